@@ -36,6 +36,7 @@ def run(ctx):
     ctx.guard(rule_e, ctx, ix)
     ctx.guard(rule_f, ctx, ix)
     ctx.guard(rule_g, ctx, ix)
+    ctx.guard(rule_h, ctx, ix)
 
 
 def rule_a(ctx, ix):
@@ -470,3 +471,37 @@ def rule_g(ctx, ix):
                where=comp.where)
     if n < 2:
         raise AnalysisError('C14.g: only %d link classes with their own copy of the inputs found' % n)
+
+
+def rule_h(ctx, ix):
+    """A parsed expression is normalised by replacing every `{label}` tag with `{uuid}`.  The table of replacements is keyed by the
+    text that was matched: one attribute can be spelled in several ways (`{x}`, `{ x }`, two labels of one identifier), and every
+    spelling has to be replaced - a table keyed by the identifier keeps the last spelling only."""
+    R = 'C14.h'
+    ctx.describe(R, 'tag normalisation of parsed expressions replaces every spelling (the table is keyed by the matched text)', floor=1)
+    f = ix.func('glue.core.parse._validate')
+    loops = [lp for lp in walk_no_nested(f.node) if isinstance(lp, ast.For) and 'finditer' in unparse(lp.iter)]
+    if len(loops) != 1 or not isinstance(loops[0].target, ast.Name):
+        raise AnalysisError('parse._validate: the loop over the tags is no longer recognised')
+    m = loops[0].target.id
+    derived = {m}
+    for _ in range(3):
+        for st in ast.walk(loops[0]):
+            if isinstance(st, ast.Assign) and isinstance(st.targets[0], ast.Name) and any(isinstance(x, ast.Name) and x.id in derived for x in ast.walk(st.value)) \
+                    and not any(isinstance(x, ast.Subscript) and isinstance(x.value, ast.Name) and x.value.id == f.params[1] for x in ast.walk(st.value)):
+                derived.add(st.targets[0].id)
+    stores = [st for st in ast.walk(loops[0]) if isinstance(st, ast.Assign) and isinstance(st.targets[0], ast.Subscript)
+              and isinstance(st.targets[0].value, ast.Name)]
+    # the table that is later used with str.replace
+    used = {unparse(lp.iter).split('.')[0] for lp in walk_no_nested(f.node) if isinstance(lp, ast.For) and any(call_name(c) == 'replace' for c in calls_in(lp))}
+    tables = [st for st in stores if st.targets[0].value.id in used]
+    if not tables:
+        raise AnalysisError('parse._validate: the replacement table is no longer recognised')
+    for st in tables:
+        key = st.targets[0].slice
+        ok = any(isinstance(x, ast.Name) and x.id in derived for x in ast.walk(key)) and not any(
+            isinstance(x, ast.Attribute) and x.attr == 'uuid' for x in ast.walk(key))
+        ctx.ob(R, '%s `%s`' % (f.construct, norm(st)[:70]), 'the replacement table is keyed by the matched text', ok,
+               detail='parse._validate keys its replacement table by `%s`, not by the text that was matched: when one attribute is spelled in '
+                      'two ways in a command (`{x} * { x }`, or two labels of the same identifier) only the last spelling is replaced, and '
+                      'the expression is rejected or cannot be evaluated' % unparse(key), where=where(f, st))
